@@ -7,6 +7,7 @@ package main
 import (
 	"bufio"
 	"bytes"
+	"context"
 	"encoding/json"
 	"fmt"
 	"math/rand"
@@ -15,6 +16,10 @@ import (
 	"testing"
 	"time"
 
+	"go.opentelemetry.io/collector/pdata/pcommon"
+
+	"github.com/tdakkota/docker-logql/internal/dockerlog"
+	"github.com/tdakkota/docker-logql/internal/logql/logqlengine"
 	"github.com/tdakkota/docker-logql/internal/lokiapi"
 )
 
@@ -29,7 +34,11 @@ type cliIn struct {
 	// C15
 	Streams []renderStream `json:"streams"`
 	Opts    []bool         `json:"opts"` // [timestamp, container, color]
-	Kind    string         `json:"kind"`           // "time" | "render"
+	Kind    string         `json:"kind"`           // "time" | "render" | "e2e"
+	// C18 (kind e2e): inventory evaluated through dockerlog + engine + renderResult under forced completion orders
+	Ctrs   []FakeCtr `json:"ctrs"`
+	Orders [][]int   `json:"orders"`
+	Reps   int       `json:"reps"`
 }
 
 type spell struct {
@@ -87,6 +96,8 @@ func TestVerifProbe(t *testing.T) {
 			probeTime(tr, id, raw, &in)
 		case "render":
 			probeRender(tr, id, raw, &in)
+		case "e2e":
+			probeE2E(tr, id, raw, &in)
 		}
 	}
 	if casesPath != "" {
@@ -123,6 +134,8 @@ func TestVerifProbe(t *testing.T) {
 		var in any
 		if os.Getenv("VERIF_MODE") == "render" {
 			in = genRender(r)
+		} else if os.Getenv("VERIF_MODE") == "e2e" {
+			in = genE2E(r)
 		} else {
 			in = genTime(r)
 		}
@@ -226,6 +239,81 @@ func probeRender(tr *Trace, scn int, raw json.RawMessage, in *cliIn) {
 	}()
 }
 
+// ---- C18: the whole path (Docker storage -> engine -> renderer) under forced completion orders
+
+func probeE2E(tr *Trace, scn int, raw json.RawMessage, in *cliIn) {
+	tr.Scenario(scn, raw)
+	run := 0
+	for _, order := range in.Orders {
+		for rep := 0; rep < in.Reps; rep++ {
+			run++
+			evalOnce := func(fake *FakeDocker) (lokiapi.QueryResponseData, error) {
+				q, _ := dockerlog.NewQuerier(fake)
+				eng := logqlengine.NewEngine(q, logqlengine.Options{})
+				return eng.Eval(context.Background(), "{}", logqlengine.EvalParams{
+					Start: pcommon.NewTimestampFromTime(time.Unix(1699999000, 0)), End: pcommon.NewTimestampFromTime(time.Unix(1700009000, 0)), Limit: -1})
+			}
+			dry := newFakeDocker(nil, scn, in.Ctrs)
+			_, _ = evalOnce(dry)
+			fake := newFakeDocker(nil, scn, in.Ctrs)
+			fake.gated, fake.expect, fake.order = true, dry.callsPer, order
+			tr.Ev(scn, "Run", F{"run": run, "order": order, "rep": rep + 1})
+			func() {
+				defer func() {
+					if x := recover(); x != nil {
+						tr.Ev(scn, "Panic", F{"detail_txt": fmt.Sprint(x)})
+					}
+				}()
+				data, err := evalOnce(fake)
+				if err != nil {
+					tr.Ev(scn, "Return", F{"outcome": "err", "kind": "none"})
+					return
+				}
+				tr.Ev(scn, "Return", F{"outcome": "ok", "kind": string(data.Type)})
+				var buf bytes.Buffer
+				rerr := renderResult(&buf, renderOptions{timestamp: in.Opts[0], container: in.Opts[1], color: false}, data)
+				tr.Ev(scn, "Rendered", F{"ok": rerr == nil, "out": B(buf.String())})
+			}()
+			if fake.hang {
+				tr.Ev(scn, "Unschedulable", nil)
+			}
+			tr.Ev(scn, "RunEnd", F{"run": run})
+		}
+	}
+}
+
+func genE2E(r *rand.Rand) cliIn {
+	in := cliIn{Kind: "e2e", Now: []int{0, 0, 0}, Has: []bool{false, false, false, false}, Since: []int{}, Step: []int{}, Streams: []renderStream{},
+		Opts: []bool{r.Intn(2) == 0, r.Intn(2) == 0, false}, Reps: 2}
+	nc := 2 + r.Intn(3)
+	sec := 1700000001
+	for c := 1; c <= nc; c++ {
+		ctr := simpleCtr(fmt.Sprintf("id%d", c), fmt.Sprintf("n%d", c), []Frame{})
+		for j := 0; j < 1+r.Intn(3); j++ {
+			ctr.Frames = append(ctr.Frames, Frame{Typ: 1, TS: []int{sec, 0}, Msg: B(fmt.Sprintf("c%d-%d", c, j+1))})
+			sec++
+		}
+		in.Ctrs = append(in.Ctrs, ctr)
+	}
+	// all completion orders
+	var rec func(cur []int, used []bool)
+	rec = func(cur []int, used []bool) {
+		if len(cur) == nc {
+			in.Orders = append(in.Orders, append([]int{}, cur...))
+			return
+		}
+		for i := 1; i <= nc; i++ {
+			if !used[i] {
+				used[i] = true
+				rec(append(cur, i), used)
+				used[i] = false
+			}
+		}
+	}
+	rec(nil, make([]bool, nc+1))
+	return in
+}
+
 // ---- random drivers
 
 func digitsOf(v int64) []int { return B(strconv.FormatInt(v, 10)) }
@@ -277,7 +365,7 @@ var badStep = []string{"abc", "1q", "7k", "--1", "1.2.3", "0", "-1", "NaN", "0s"
 func genTime(r *rand.Rand) cliIn {
 	now := int64(978307200) + r.Int63n(7258118400-978307200)
 	in := cliIn{Kind: "time", Now: []int{int(now / 1000000000), int(now % 1000000000), r.Intn(2) * r.Intn(1000000000)}, Has: []bool{r.Intn(2) == 0, r.Intn(2) == 0, r.Intn(2) == 0, r.Intn(2) == 0},
-		Since: []int{}, Step: []int{}, Streams: []renderStream{}, Opts: []bool{}}
+		Since: []int{}, Step: []int{}, Streams: []renderStream{}, Opts: []bool{}, Ctrs: []FakeCtr{}, Orders: [][]int{}}
 	in.Start, in.End = genSpell(r), genSpell(r)
 	if r.Intn(3) == 0 {
 		// end around now (before / after)
@@ -307,7 +395,7 @@ func genTime(r *rand.Rand) cliIn {
 func pick2(r *rand.Rand, xs []string) string { return xs[r.Intn(len(xs))] }
 
 func genRender(r *rand.Rand) cliIn {
-	in := cliIn{Kind: "render", Now: []int{0, 0, 0}, Has: []bool{false, false, false, false}, Since: []int{}, Step: []int{}, Opts: []bool{r.Intn(2) == 0, r.Intn(2) == 0, r.Intn(2) == 0}}
+	in := cliIn{Kind: "render", Now: []int{0, 0, 0}, Has: []bool{false, false, false, false}, Since: []int{}, Step: []int{}, Ctrs: []FakeCtr{}, Orders: [][]int{}, Opts: []bool{r.Intn(2) == 0, r.Intn(2) == 0, r.Intn(2) == 0}}
 	nc := r.Intn(14)
 	if r.Intn(5) == 0 {
 		nc = r.Intn(30)
